@@ -204,7 +204,7 @@ package datalog
 
 //@ func (s Set) contains(t Term) (result bool)
 //@ serves C06 C10
-//@ requires setWF(s)
+//@ requires setWF(s) && (t is Set ==> setWF(t.(Set)))
 //@ modifies nothing
 //@ loop 0 invariant forall j int :: 0 <= j && j < #i ==> !scalarEq(s[j], t)
 //@ ensures result == memberOf(t, s)
@@ -383,3 +383,86 @@ package datalog
 //@ ensures in_range: forall j int :: 0 <= j && j < len(*indexes) ==> 0 <= (*indexes)[j] && (*indexes)[j] < len(*facts)
 //@ ensures advanced: result ==> 0 <= *current && *current <= old(*current) && (*indexes)[*current] == old((*indexes)[now(*current)]) + 1 && (forall j int :: *current < j && j <= old(*current) ==> old((*indexes)[j]) == len(*facts) - 1 && (*indexes)[j] == 0) && (forall j int :: 0 <= j && j < len(*indexes) && (j < *current || j > old(*current)) ==> (*indexes)[j] == old((*indexes)[j]))
 //@ ensures exhausted: !result ==> (forall j int :: 0 <= j && j <= old(*current) ==> old((*indexes)[j]) == len(*facts) - 1)
+
+//@ func (s *FactSet) InsertAll(facts []Fact)
+//@ serves C05 C10 C12
+//@ requires s != nil && factsWF(*s) && (forall k int :: { facts[k] } 0 <= k && k < len(facts) ==> predWF(facts[k].Predicate))
+//@ requires arr(facts) != arr(*s) || len(facts) == 0
+//@ modifies *s, spare(*s)
+//@ loop 0 invariant forall k int :: { facts[k] } 0 <= k && k < len(facts) ==> facts[k] == old(facts[k])
+//@ loop 0 invariant factsWF(*s) && len(*s) >= old(len(*s)) && (forall j int :: { (*s)[j] } 0 <= j && j < old(len(*s)) ==> (*s)[j] == old((*s)[j]))
+//@ loop 0 invariant (arr(*s) == old(arr(*s)) && off(*s) == old(off(*s)) && cap(*s) == old(cap(*s))) || fresh(arr(*s))
+//@ loop 0 invariant len(*s) == old(len(*s)) ==> (forall k int :: { facts[k] } 0 <= k && k < #i ==> old(factIn(now(facts[k].Predicate), *s)))
+//@ ensures wf: factsWF(*s)
+//@ ensures prefix_kept: len(*s) >= old(len(*s)) && (forall j int :: { (*s)[j] } 0 <= j && j < old(len(*s)) ==> (*s)[j] == old((*s)[j]))
+//@ ensures no_growth_means_subset: len(*s) == old(len(*s)) ==> (forall k int :: { facts[k] } 0 <= k && k < len(facts) ==> old(factIn(now(facts[k].Predicate), *s)))
+//@ ensures same_or_fresh_array: (arr(*s) == old(arr(*s)) && off(*s) == old(off(*s)) && cap(*s) == old(cap(*s))) || fresh(arr(*s))
+
+// ---------------------------------------------------------------------------
+// variable bindings
+
+//@ func (m MatchedVariables) Insert(k Variable, v Term) (result bool)
+//@ serves C05 C10
+//@ requires m != nil && termWF(v) && bindingsWF(m)
+//@ modifies mapof(m)
+//@ ensures binds: old(m[k]) == nil ==> result && has(m, k) && m[k] != nil && *m[k] == v && fresh(m[k])
+//@ ensures checks: old(m[k]) != nil ==> result == termEq(v, *m[k]) && m[k] == old(m[k])
+//@ ensures others: forall q Variable :: q != k ==> has(m, q) == old(has(m, q)) && m[q] == old(m[q])
+
+//@ func (m MatchedVariables) Complete() (result map[Variable]*Term)
+//@ serves C05 C10
+//@ modifies nothing
+//@ loop 0 invariant forall q Variable :: seen(q) ==> m[q] != nil
+//@ ensures all_bound: result != nil ==> result == m && (forall q Variable :: has(m, q) ==> m[q] != nil)
+//@ ensures unbound: m != nil && result == nil ==> (exists q Variable :: has(m, q) && m[q] == nil)
+
+//@ func (m MatchedVariables) Clone() (res MatchedVariables)
+//@ serves C05 C10
+//@ modifies nothing
+//@ loop 0 invariant res != nil && fresh(res) && (forall q Variable :: seen(q) ==> has(m, q) && has(res, q) && res[q] == m[q]) && (forall q Variable :: has(res, q) ==> seen(q))
+//@ ensures copy: res != nil && fresh(res) && (forall q Variable :: has(res, q) == has(m, q)) && (forall q Variable :: has(m, q) ==> res[q] == m[q])
+
+// ---------------------------------------------------------------------------
+// worlds
+
+//@ func (w *World) AddFact(f Fact)
+//@ serves C03 C04 C05 C10 C12
+//@ requires w != nil && w.facts != nil && factsWF(*w.facts) && predWF(f.Predicate)
+//@ modifies *w.facts, spare(*w.facts)
+//@ ensures wf: factsWF(*w.facts)
+//@ ensures duplicate: old(factIn(f.Predicate, *w.facts)) ==> *w.facts == old(*w.facts)
+//@ ensures added: !old(factIn(f.Predicate, *w.facts)) ==> len(*w.facts) == old(len(*w.facts)) + 1 && (*w.facts)[old(len(*w.facts))] == f
+//@ ensures prefix_kept: len(*w.facts) >= old(len(*w.facts)) && (forall j int :: { (*w.facts)[j] } 0 <= j && j < old(len(*w.facts)) ==> (*w.facts)[j] == old((*w.facts)[j]))
+
+//@ func (w *World) AddRule(r Rule)
+//@ serves C03 C04 C05 C10
+//@ requires w != nil
+//@ modifies w.rules, spare(w.rules)
+//@ ensures len(w.rules) == old(len(w.rules)) + 1 && w.rules[len(w.rules)-1] == r && (forall j int :: { w.rules[j] } 0 <= j && j < old(len(w.rules)) ==> w.rules[j] == old(w.rules[j]))
+
+//@ func (w *World) ResetRules()
+//@ serves C02 C03 C04 C10
+//@ requires w != nil
+//@ modifies w.rules
+//@ ensures len(w.rules) == 0
+
+//@ func (w *World) Clone() (res *World)
+//@ serves C02 C03 C04 C10 C11 C13
+//@ requires w != nil && w.facts != nil
+//@ modifies nothing
+//@ ensures fresh_world: res != nil && fresh(res) && res.facts != nil && fresh(res.facts) && res.facts != w.facts
+//@ ensures same_facts: *res.facts == *w.facts
+//@ ensures same_rules: len(res.rules) == len(w.rules) && fresh(arr(res.rules)) && (forall j int :: { res.rules[j] } 0 <= j && j < len(w.rules) ==> res.rules[j] == w.rules[j])
+//@ ensures limits_kept: res.runLimits == w.runLimits
+
+//@ func (w *World) Facts() (res *FactSet)
+//@ serves C10 C18
+//@ requires w != nil
+//@ modifies nothing
+//@ ensures res == w.facts
+
+//@ func (w *World) Rules() (res []Rule)
+//@ serves C10 C18
+//@ requires w != nil
+//@ modifies nothing
+//@ ensures res == w.rules
